@@ -13,7 +13,9 @@ ALL = ["C%02d" % i for i in range(1, 18)]
 CLAIMS = {
     "C01": (
         "TLA+ denotation (XSem.tla) explored exhaustively by TLC over all small documents x all 1-3 step paths; "
-        "generated behaviours replayed on the real engine; seeded engine traces validated by TLC (XBatch.tla)",
+        "generated behaviours replayed on the real engine; seeded engine traces validated by TLC (XBatch.tla); "
+        "implementation-shaped model of the iterator pipeline (XQueryVM.tla) model-checked against the denotation and "
+        "compared with the engine's recorded cursor movements",
         "Bounded-exhaustive model checking of the XPath 1.0 path denotation with two-way conformance: every (document, "
         "path, context) up to the bounds is replayed on the engine and compared with the set the specification requires; "
         "larger random cases are recorded from the engine and validated by TLC.",
@@ -25,7 +27,9 @@ CLAIMS = {
 
 CLAIMS["C02"] = (
     "TLA+ denotation with predicates (XSem.tla) explored by TLC over documents x predicate pools (XPools.tla: host axis x "
-    "predicate axis x atom form, nesting depth 2, and/or/not, two predicates, parenthesised paths); replay on the engine",
+    "predicate axis x atom form, nesting depth 2, and/or/not, two predicates, parenthesised paths with one or several "
+    "predicates, and/or over merge-rewritten operands); replay on the engine; seeded deeper cases recorded from the "
+    "engine and validated by TLC (XBatch.tla, with taint analysis for values outside the exact number model)",
     "Bounded-exhaustive model checking of predicate semantics: every candidate sequence arising in all small documents and "
     "the catalogue (several candidates sharing ancestors, siblings, followers) is replayed and compared with the denotation, "
     "which exposes state leaking from one candidate to the next.",
@@ -40,21 +44,22 @@ CLAIMS["C03"] = (
 CLAIMS["C07"] = (
     "TLA+ comparison matrix and boolean operators (XSem.tla Compare/ToBool, XValue.tla exact IEEE model) explored by TLC "
     "over the full operator x operand-type x operand-value matrix on value documents; replay on the engine via Evaluate "
-    "and as predicates via Select",
+    "and as predicates via Select; seeded deeper comparisons recorded from the engine and validated by TLC",
     "Exhaustive model checking of the claimed type pairs: 6 operators x number/string/node-set operands incl. NaN, "
     "infinity, non-numeric, empty, whitespace-padded and duplicate node values; short-circuit observed through an operand "
     "that raises a deliberate complaint if evaluated.",
     CLAIMS["C01"][2], "DESIGN.md 4/C07")
 CLAIMS["C08"] = (
     "TLA+ exact model of IEEE-754 arithmetic on signed dyadic rationals with NaN/Infinity/signed zero (XValue.tla) "
-    "explored by TLC over all arithmetic trees of depth 1-2 (thorough: larger leaf sets); bit-exact comparison of the "
-    "engine's float64 with the specified value",
+    "explored by TLC over all arithmetic trees of depth 1-2 (thorough: larger leaf sets), depth 3-4 by seeded engine "
+    "traces validated by TLC; bit-exact comparison of the engine's float64 with the specified value",
     "Bounded-exhaustive model checking of arithmetic, number(), count(), sum(), floor(), ceiling(), unary minus and "
     "string(number); expressions whose exact value leaves the dyadic model (1 div 3) are outside the model and skipped.",
     CLAIMS["C01"][2] + " IEEE rounding itself is not modelled (DESIGN.md 8).", "DESIGN.md 4/C08")
 CLAIMS["C09"] = (
     "TLA+ string library (XValue.tla) explored by TLC over the full argument product per function (substring: strings x "
-    "15 starts x 11 lengths incl. negative/fractional/beyond the end) and depth-2 compositions; replay on the engine",
+    "15 starts x 11 lengths incl. negative/fractional/beyond the end) and depth-2 compositions; replay on the engine; "
+    "depth 3-4 compositions by seeded engine traces validated by TLC",
     "Exhaustive model checking of every string function over an ASCII pool incl. empty / whitespace strings and flat "
     "node-set arguments (first node, empty set).",
     CLAIMS["C01"][2], "DESIGN.md 4/C09")
@@ -79,7 +84,8 @@ CLAIMS["C12"] = (
 CLAIMS["C11"] = (
     "TLA+ union denotation (XSem.tla union/seqstep) explored by TLC over all documents up to 4-5 nodes whose element "
     "names contain '-' and digits (a, a-1, a-1-1, b1), with repeated values, attributes, text, comments x all operand "
-    "pairs of a path pool; replay requires each node exactly once",
+    "pairs of a path pool (incl. operands that deliver a node several times); replay requires each node exactly once; "
+    "seeded nested unions on larger documents recorded from the engine and validated by TLC",
     "Bounded-exhaustive model checking of A|B, nested unions and p/(a, b): overlapping, disjoint and equal operands; "
     "identity confusion between distinct nodes is searched by enumerating names and shapes systematically.",
     CLAIMS["C01"][2], "DESIGN.md 4/C11")
@@ -102,7 +108,8 @@ CLAIMS["C05"] = (
 
 CLAIMS["C16"] = (
     "TLA+ cache specification: AbstractCache (policy-free) and the lock-step model of loadingCache.get (XCache.tla) checked "
-    "by TLC for all interleavings incl. refinement; TLC-enumerated key sequences run on a real cache through verif hooks "
+    "by TLC for all interleavings incl. refinement; inductive invariant of the sequential abstraction discharged by "
+    "Apalache (XCacheInd.tla); TLC-enumerated key sequences run on a real cache through verif hooks "
     "and matches(), goroutine runs under -race with logical-clock stamped calls, all validated by TLC (XCacheBatch.tla); "
     "replace() template rewriting specified in XRegex.tla with Go's regexp as the environment oracle",
     "Model checking of the cache design (mutual exclusion, capacity bound, exactness, failed loads not remembered, "
@@ -114,7 +121,8 @@ CLAIMS["C16"] = (
 CLAIMS["C14"] = (
     "TLA+ name-test rule (XSem.tla NameMatch: no map / map+URI navigator / map+plain navigator / unbound prefix) explored "
     "by TLC over all documents up to 3-4 nodes with 0..3 namespaces under varying prefixes x 5 namespace maps x 2 "
-    "navigator flavours x prefixed/unprefixed tests on all 12 axes and the name functions; replay on the engine",
+    "navigator flavours x prefixed/unprefixed tests on all 12 axes and the name functions; replay on the engine; "
+    "seeded configurations on documents up to 16 nodes recorded from the engine and validated by TLC",
     "Bounded-exhaustive model checking over configurations; unbound prefixes must make CompileWithNS fail.",
     CLAIMS["C01"][2], "DESIGN.md 4/C14")
 CLAIMS["C15"] = (
@@ -130,7 +138,7 @@ CLAIMS["C15"] = (
 CLAIMS["C10"] = (
     "TLA+ reference parser (XSyntax.tla: tokens, lexical adjacency rule NeedsSep, recursive-descent RefParse, engine-shaped "
     "rendering EForm) - TLC enumerates every operator chain up to 2-5 operators with keyword-named operands, unary minus, "
-    "abbreviations (MC_Syntax.tla); each token string is rendered with 5 whitespace placements and parsed by the real "
+    "abbreviations (MC_Syntax.tla), and the repository's own test expressions (MC_Corpus.tla); each token string is rendered with 5 whitespace placements and parsed by the real "
     "parser through the verif hook VerifParse; the tree must equal the reference tree; hook-independently the VALUE of "
     "constant chains must be the value the reference grouping denotes",
     "Exhaustive over all ordered operator pairs (16 operators) and triples; whitespace optional exactly where the "
